@@ -499,7 +499,9 @@ func (p *c08) Enumerate(tier string) [][]int32 {
 	for op := range c08ConstOps {
 		for a := range c08ConstVals {
 			for b := range c08ConstVals {
-				out = append(out, []int32{13, int32(op), int32(a), int32(b), int32((op + a + b) % len(c08ConstShapes)), int32((a + b) % 2)})
+				// (with and without the optimizer: the last draw is "Intn(2) == 0")
+				out = append(out, []int32{13, int32(op), int32(a), int32(b), int32((op + a + b) % len(c08ConstShapes)), 0})
+				out = append(out, []int32{13, int32(op), int32(a), int32(b), int32((op + a + b + 1) % len(c08ConstShapes)), 1})
 			}
 		}
 	}
